@@ -234,7 +234,33 @@ func RunProgram(p *Program, store string, seed int64, oo ObsOpts, enc *json.Enco
 		}
 		events++
 		rs, osum := sums()
-		return enc.Encode(map[string]any{"k": "op", "i": events, "op": op, "resp": r, "obs": o, "rootsum": rs, "outsum": osum})
+		ev := map[string]any{"k": "op", "i": events, "op": op, "resp": r, "obs": o, "rootsum": rs, "outsum": osum}
+		if vclockOn {
+			ev["pending"] = vclockPending()
+		}
+		return enc.Encode(ev)
+	}
+	// handles of the sessions the server still holds
+	live := func() map[string]bool {
+		out := map[string]bool{}
+		ids := map[string]map[string]bool{}
+		for h, si := range ex.Sess {
+			if ids[si.repoReal] == nil {
+				ids[si.repoReal] = map[string]bool{}
+				if l, err := srv.S.VerifSessions(si.repoReal); err == nil {
+					for _, id := range l {
+						ids[si.repoReal][id] = true
+					}
+				}
+			}
+			if ids[si.repoReal][si.id] {
+				out[h] = true
+			}
+		}
+		return out
+	}
+	if vclockOn {
+		vclockReset()
 	}
 	for _, op := range p.Ops {
 		for _, prim := range ex.Expand(op) {
@@ -242,6 +268,26 @@ func RunProgram(p *Program, store string, seed int64, oo ObsOpts, enc *json.Enco
 			r := ex.Do(prim)
 			if err := emit(prim, r); err != nil {
 				return events, err
+			}
+			if vclockOn && prim.Op != "Tick" {
+				vclockAdvance(1) // every operation takes one second of virtual time (spec/Registry.tla: ClockStep)
+				if vclockPending() > 0 {
+					// the count prune a blob creation spawned runs now, as a step of its own
+					before := live()
+					vclockRunQueued()
+					after := live()
+					gone := []string{}
+					for h := range before {
+						if !after[h] {
+							gone = append(gone, h)
+						}
+					}
+					sort.Strings(gone)
+					if err := emit(Op{Op: "Evict", Evicted: gone}, Resp{Status: 200, Off: -1, StOff: -1, Len: -1, Codes: []string{}, List: []string{}, ErrDoc: "none"}); err != nil {
+						return events, err
+					}
+					vclockAdvance(1)
+				}
 			}
 		}
 	}
